@@ -22,6 +22,7 @@ ENTRIES = [
     (4, 8, b'ab\0junk'),                # junk after the NUL
     (5, 7, ''),                         # same pid as entries 0/1 with an EMPTY name (a later entry wins even when empty)
     (7, 3, 'q'),                        # a THREAD id that is numerically the PROCESS id of entries 0/1/6 (and a pid that is their tid)
+    (8, 11, 'Cafe\u0301 A\u030a'),        # a name in decomposed form (base letter + combining mark): stored as it is written
 ]
 CAPTURED = (b'\x8b\xf3\x8f1\x13\xeb\x03\x00ework_BusinessChat-7.0.1-py2.py3\xdeJ\x88\x00\x00\x00\x00\x00'
             b'\x90\x00\x01\x03\x01\x00\x00\x00\x00\x00\x00\x00\x00\x00\x00\x00')
@@ -29,6 +30,7 @@ RECORDS = {
     'cap': CAPTURED,
     'ff': b'\xff' * 64,
     'dist': bytes(range(1, 65)),
+    'hi': (2 ** 56 + 1).to_bytes(8, 'little') + bytes(range(8, 52)) + bytes(12),     # timestamp >= 2^56 with a zero cpu word
     'z1': b'\x00' + bytes(range(1, 64)),      # first byte zero (a timestamp whose low byte is 0)
     'z2': b'\x00\x00' + bytes(range(2, 64)),
     'z7': bytes(7) + bytes(range(7, 64)),
